@@ -210,8 +210,10 @@ def reported_values(value):
 EMPTY_VALUES = {"custom": [], "quote": [], "fields": {}}
 
 
-def observe(cert, root_pem, target, scratch, tag, via_file=True):
-    """Run the real loader + validator; project the outcome."""
+def observe(cert, root_pem, target, scratch, tag, via_file=True, pre_root_pem=None):
+    """Run the real loader + validator; project the outcome. With `pre_root_pem` the certificate object is
+    first asked about that other root of trust and only then about `root_pem` (the verdict must be a
+    function of certificate and root, not of what the object was asked before)."""
     import warnings
     warnings.filterwarnings("ignore")       # cryptography deprecation chatter on corrupted serials
     from admin.certificate import HSMCertificate, HSMCertificateV2, HSMCertificateV2ElementX509
@@ -225,6 +227,19 @@ def observe(cert, root_pem, target, scratch, tag, via_file=True):
             obs["exc"] = "load: %s" % str(e)[:120]
             return obs
         obs["loaded"] = True
+        if pre_root_pem is not None:
+            try:
+                pp = os.path.join(scratch, "pre_%s.pem" % tag)
+                with open(pp, "w") as f:
+                    f.write(pre_root_pem)
+                c.validate_and_get_values(HSMCertificateV2ElementX509.from_pemfile(pp, ROOT, ROOT))
+            except Exception:
+                pass
+            finally:
+                try:
+                    os.unlink(pp)
+                except OSError:
+                    pass
         try:
             res = c.validate_and_get_values(root)
         except Exception as e:          # not a verdict: certainly not "reported valid"
@@ -269,15 +284,35 @@ def run_task(task):
          "unspecified": abstract["unspecified"], "exc": obs["exc"], "applied": applied,
          "meta": meta,
          "concrete": zlib.compress(json.dumps({"certificate": cert, "root_pem": root_pem}).encode())}
+    # the same question put to an object that was first asked about another root of trust
+    roots = mat.get("root_pem") if isinstance(mat, dict) else None
+    if isinstance(roots, dict) and roots.get("right") and roots.get("fresh"):
+        alt = roots["fresh"] if root_pem == roots["right"] else roots["right"]
+        obs2 = observe(cert, root_pem, abstract["target"], scratch, "q%d" % tid, via_file=False, pre_root_pem=alt)
+        if (obs2["loaded"], obs2["valid"], obs2["reported"]) != (obs["loaded"], obs["valid"], obs["reported"]):
+            t2 = dict(t)
+            t2.update(id=tid + 50000000, loaded=obs2["loaded"], valid=obs2["valid"], failing=obs2["failing"],
+                      reported=obs2["reported"], exc=obs2["exc"],
+                      signed=signed_values(mat) if obs2["valid"] else EMPTY_VALUES,
+                      meta=dict(meta, requery=True))
+            t["also"] = t2
     return t
 
 
 def run_tasks(tasks):
     if PROCS <= 1 or len(tasks) < 64:
-        return [run_task(t) for t in tasks]
-    ctxm = multiprocessing.get_context("fork")
-    with ctxm.Pool(PROCS) as pool:
-        return pool.map(run_task, tasks, chunksize=32)
+        res = [run_task(t) for t in tasks]
+    else:
+        ctxm = multiprocessing.get_context("fork")
+        with ctxm.Pool(PROCS) as pool:
+            res = pool.map(run_task, tasks, chunksize=32)
+    out, extras = [], []
+    for t in res:
+        also = t.pop("also", None)
+        out.append(t)
+        if also is not None:
+            extras.append(also)
+    return out + extras
 
 
 # ------------------------------------------------------------------------------------------------
@@ -548,7 +583,9 @@ def run(ctx):
     # the concretisation must realise exactly the abstract certificate TLC asked for
     model_drift = 0
     for t in traces:
-        b = by_id[t["id"]]
+        b = by_id.get(t["id"])
+        if b is None:        # an extra observation (answer changed after a query with another root)
+            continue
         want = mapped_abstract(b)
         if t["cert"] != want["cert"] or t["rot"] != want["rot"] or t["unspecified"]:
             raise core.MachineryError("concretisation does not realise the abstract certificate: "
